@@ -338,7 +338,7 @@ private:
         }
         while (true) {
             skip_whitespace();
-            if (peek() != '"') {
+            if (eof() || peek() != '"') {
                 throw std::runtime_error("Expected string key in object");
             }
             std::string key = parse_string();
@@ -408,7 +408,7 @@ private:
         }
         if (match('0')) {
             // single zero allowed
-        } else if (std::isdigit(static_cast<unsigned char>(peek())) != 0) {
+        } else if (!eof() && std::isdigit(static_cast<unsigned char>(peek())) != 0) {
             while (!eof() && std::isdigit(static_cast<unsigned char>(peek())) != 0) {
                 ++pos_;
             }
